@@ -8,7 +8,8 @@
 // × the dates {since-1, since, since+1 for every start date of that rate,
 // 1900-01-01, today, 2100-01-01}, through four paths (RateDef.Value; invoice
 // with issue date d; invoice with value date d and another issue date;
-// invoice of another regime with a per-combo country override).  A seeded
+// invoice of another regime with a per-combo country override), and through
+// documents whose rows belong to different regimes (mixed.go).  A seeded
 // stream of synthetic tables (undated rows, impossible dates, qualified rows)
 // additionally validates the model of RateDef.Value beyond the shipped shapes.
 package c12
@@ -46,8 +47,9 @@ type Row struct {
 
 // Case is one evaluated input (also the replay format).
 type Case struct {
-	Path    string            `json:"path"` // value | invoice-issue | invoice-value | invoice-override | invoice-stale | raw
+	Path    string            `json:"path"` // value | invoice-issue | invoice-value | invoice-override | invoice-stale | invoice-mixed | raw
 	Country string            `json:"regime,omitempty"`
+	Other   string            `json:"other_regime,omitempty"` // invoice-mixed (mixed.go): the country written on one row of a document of `regime`
 	Cat     string            `json:"category,omitempty"`
 	Rate    string            `json:"rate,omitempty"`
 	Date    [3]int            `json:"date"`
@@ -433,6 +435,7 @@ func Run(c *core.Ctx) int {
 		cases = []Case{one}
 	} else {
 		cases = enumerate(c)
+		cases = append(cases, mixedCases(c)...)
 		cases = append(cases, synthetic(c)...)
 	}
 	var evs []*evaluated
@@ -506,6 +509,8 @@ func prepare(c *core.Ctx, cs Case) *evaluated {
 		return prepareRaw(c, cs)
 	case "value":
 		return prepareValue(c, cs)
+	case "invoice-mixed":
+		return prepareMixed(c, cs)
 	default:
 		return prepareInvoice(c, cs)
 	}
